@@ -80,6 +80,31 @@ def handle (line : String) : String :=
     match n.toNat?, parseFrags fr, nl.toNat?, sl.toNat? with
     | some n, some frags, some nameLen, some subLen => handleFmt n frags nameLen subLen impl
     | _, _, _, _ => badCase "fmt fields"
+  | "fn" :: name :: args =>
+    -- a template function of web.Funcmap called directly: impl = `panic` or the hex of its result
+    -- (`addln`: `num:hex,…`, `-` = no line); SPECFAIL when the real function fails (the page would be lost)
+    let model? : Option String :=
+      match name, args with
+      | "limitpre", [l, h] => do
+        let l ← l.toNat?
+        let s ← hexToBytes? h
+        pure (match limitPre l (toStr s) with | some o => showStr o | none => "panic")
+      | "limitpost", [l, h] => do
+        let l ← l.toNat?
+        let s ← hexToBytes? h
+        pure (match limitPost l (toStr s) with | some o => showStr o | none => "panic")
+      | "trimnl", [h] => do
+        let s ← hexToBytes? h
+        pure (showStr (trimTrailingNewline (toStr s)))
+      | "addln", [n, b, h] => do
+        let n ← n.toInt?
+        let b ← bool? b
+        let s ← hexToBytes? h
+        pure (showList (fun (p : Int × Str) => s!"{p.1}:{showStr p.2}") (addLineNumbers (toStr s) n b))
+      | _, _ => none
+    match model? with
+    | none => badCase "fn fields"
+    | some model => if impl == "panic" then specFail model ("template-function-fails:" ++ name) else answer model
   | _ => badCase "op"
 
 def main : IO Unit := runLines handle
